@@ -691,6 +691,10 @@ def jobs():
             ('pair', ('rows', 0, 'Ray'), ('rows', 1, 'Ray')), cls='planar_mesh',
             doc='`planar_mesh.mirror` with `triangles = self.get_triangles()`: (reflected_rays, reflected_normals)'),
     ]
+    one = lambda n: (n, [2, 3], 'Ray', ('lead1',))
+    many = lambda n: (n, ['N', 2, 3], 'Ray', ('sq',))
+    T += [Job('reflectRaysT', LB, 'reflect', [many('input_ray'), one('normal')], ['N'], ('ray', None), doc='`reflect` for n rays and ONE normal'),
+          Job('reflectNormalsT', LB, 'reflect', [one('input_ray'), many('normal')], ['N'], ('ray', None), doc='`reflect` for ONE ray and n normals')]
     T.append(Job('intersectCircleRaysT', LB, 'intersect_w_circle',
                  [ray(), ('circle', 'list', [('circle0', [3, 3], 'Tri'), ('circle1', [3], 'Vec3'), ('circle2', [1], None)])], ['M'], ('hit', 0, 1),
                  doc='`intersect_w_circle` for a batch of rays: the plane hit, the distance masked by the radius, ray by ray'))
@@ -699,6 +703,8 @@ def jobs():
             doc='NumPy `intersect_w_surface` for an [m x 2 x 3] batch of rays and one triangle'),
         Job('reflectBatchN', NB, 'reflect', [('input_ray', ['N', 2, 3], 'Ray', ('sq',)), ('normal', ['N', 2, 3], 'Ray', ('sq',))], ['N'],
             ('ray', None), doc='NumPy `reflect` for n rays and n normals'),
+        Job('reflectRaysN', NB, 'reflect', [many('input_ray'), one('normal')], ['N'], ('ray', None), doc='NumPy `reflect` for n rays and ONE normal'),
+        Job('reflectNormalsN', NB, 'reflect', [one('input_ray'), many('normal')], ['N'], ('ray', None), doc='NumPy `reflect` for ONE ray and n normals'),
         Job('intersectCircleRaysN', NB, 'intersect_w_circle',
             [ray(), ('circle', 'list', [('circle0', [3, 3], 'Tri'), ('circle1', [3], 'Vec3'), ('circle2', [], None)])], ['M'], ('hit', 0, 1),
             doc='NumPy `intersect_w_circle` for an [m x 2 x 3] batch of rays: the distance masked by the radius, ray by ray'),
